@@ -1098,7 +1098,7 @@ def run_boundary(inp):
     G = coxeter.CoxeterGroup(matrix=np.array(M), generator_style=inp["style"])
     names = list(G.ordered_gens)
     e = 0.0 if inp["eps"] is None else float(inp["eps"])
-    par = {p: -2.0 - e for p in inp["pairs"]}
+    par = {tuple(p): -2.0 - e for p in inp["pairs"]}
     if inp["via"] == "vinberg":
         fn = lambda: G.tits_vinberg_rep(dict(par), diagonalize=True)
     else:
